@@ -102,7 +102,7 @@ CmpLine(k) ==
 CmpHist == Focus \in {"ALL", "C10", "C16", "C14"}
 CmpCalls == Focus \in {"ALL", "C01", "C12", "C16", "C17", "C04", "C14", "C07", "C08"}
 CmpPrompt == Focus \in {"ALL", "C01", "C06", "C13", "C16", "C14"}
-ChkSync == Focus \in {"ALL", "C06", "C16"}
+ChkSync == Focus \in {"ALL", "C06", "C16", "C14"}
 ChkFrame == Focus \in {"ALL", "C13"}
 ChkFlush == Focus \in {"ALL", "C15"}
 ChkUtf8 == Focus \in {"ALL", "C02"}
@@ -131,7 +131,16 @@ FailMatch(out, r, pre, post) ==
 -----------------------------------------------------------------------------
 (* checks on the output of one call *)
 
-TermAfter(r) == TermFeedAll([term EXCEPT !.rows = <<>>], Written(r.ops))
+(* After a failed sink call the terminal may have been left in the middle of *)
+(* an escape sequence or character; until the line is redrawn it is not      *)
+(* judged (insync = FALSE), and the redraw is read by a terminal whose       *)
+(* lexer has recovered.                                                      *)
+TermBase == IF insync THEN [term EXCEPT !.rows = <<>>]
+            ELSE [term EXCEPT !.rows = <<>>, !.mode = "ground", !.pend = <<>>, !.err = FALSE]
+TermAfter(r) == TermFeedAll(TermBase, Written(r.ops))
+(* a call that starts with CR (clear-line redraw, or the CR LF that ends a   *)
+(* submitted line) redraws the whole line                                    *)
+Redraws(r) == Written(r.ops) # <<>> /\ Written(r.ops)[1] = 13
 
 RECURSIVE TrimEach(_, _, _)
 TrimEach(rows, i, acc) == IF i > Len(rows) THEN acc ELSE TrimEach(rows, i + 1, Append(acc, TrimRight(rows[i])))
@@ -151,7 +160,7 @@ Common(r, post, t2) ==
     /\ ChkUtf8 => Chk(<<"C02 ill-formed UTF-8 handed out or echoed", r>>, AllWellFormed(r, post))
     /\ ChkSync => Chk(<<"C06 terminal does not show prompt + line with the cursor in place",
                          [row |-> t2.row, col |-> t2.col, err |-> t2.err], post>>,
-                      (r.res = "ok" /\ insync) => Sync(t2, post))
+                      (r.res = "ok" /\ insync') => Sync(t2, post))
     /\ ChkInv => Chk(<<"state invariant", r.st>>, RawOk(r.st) /\ StOk(cfg', post))
     /\ ChkRes => Chk(<<"C14 result does not report the sink failure", r.res, r.fired>>, (r.res = "err") <=> (r.fired > 0))
 
@@ -180,7 +189,7 @@ ByteRec(r, pre, post) ==
       /\ dec' = o.d
       /\ term' = t2
       /\ UNCHANGED cfg
-      /\ insync' = (r.res = "ok" /\ (insync \/ key.k \in {"up", "down", "enter"}))
+      /\ insync' = (r.res = "ok" /\ (insync \/ Redraws(r)))
       /\ r.res = "ok" =>
             Chk(<<"key effect: state / handler calls are not an admissible outcome of the key",
                   Focus, key, pre, post, r.calls>>,
